@@ -56,7 +56,10 @@ def _iov(pid, title, theorems, modules, vtags, obs, text, partial=""):
         assumptions=["single-threaded histories", "caller buffers outlive the iovec (the borrow checker's job)"],
     )
 
-_iov("C03", "OwningIovec is a faithful FIFO byte pipe", [], [], ["C03"], ["A", "R"],
+_iov("C03", "OwningIovec is a faithful FIFO byte pipe",
+     ["Woodpile.Props.C03.op_refines_partial", "Woodpile.Props.C03.reachable_refines_partial",
+      "Woodpile.Props.C03.no_empty_slice", "Woodpile.Props.C03.size_eq"],
+     ["Woodpile.Props.C03"], ["C03"], ["A", "R"],
      "Kernel-checked refinement of the structural OwningIovec model to an abstract byte pipe (theorem list in tools/specs.py); "
      "correspondence of the model with the real crate over random histories of the full producer/consumer API; shadow-buffer oracle.")
 _iov("C04", "Pending backpatches are never observable; filled ones unblock everything", [], [], ["C04"], ["A", "R"],
